@@ -420,7 +420,7 @@ def run(tier, seed):
     chk.witness(chk.counters.get('solved_paths', 0) > 0, 'target solve returns on some path')
     from vf import zoo as Z
     from vf.zoolib import plan_orders
-    plans = Z.zoo(tier)
+    plans = Z.zoo('quick')          # the thorough tier takes every hand-written topology (not the generated product: construction points x interruptions multiply)
     if INTERLEAVE_PLANS[tier]:
         plans = [p for p in plans if p.name in INTERLEAVE_PLANS[tier]]
     items = plan_orders(plans, 'quick')
